@@ -160,6 +160,41 @@ def logger_is_built_on_an_open_kmsg_descriptor(ctx):
                   "has no path that escapes silencing - under silence-logs: plugins it appears nowhere" % (a0, a0), witness_path(f, fl, i))
 
 
+def every_log_statement_owns_its_text(ctx):
+    """'Every accepted message is written exactly once': the text of a log statement is assembled in the LogStream object of that
+    statement and handed down by its destructor.  Two LogStream objects can be alive on one thread at the same time (a log statement
+    whose operand logs), so each owns its buffer: `stream_` is a std::ostringstream held by value, not a reference / pointer to a
+    buffer shared per thread or per process - with a shared one the inner statement wipes the outer one's text and the inner line is
+    submitted twice.  No function of the logger keeps a static / thread_local stream or string."""
+    P = ctx.prog
+    cls = P.classes.get("Oomd::LogStream")
+    if not cls:
+        ctx.broken("every-log-statement-owns-its-text", "anchor", "-", "class Oomd::LogStream not found")
+        return
+    bufs = [x for x in cls["fields"] if "stream" in (x.get("type") or "") or "string" in (x.get("type") or "")]
+    ctx.counters["logstream_buffers"] = len(bufs)
+    ctx.floor("logstream_buffers", 1, "text buffer member of LogStream")
+    for x in bufs:
+        t = (x.get("type") or "").strip()
+        ctx.check(not x.get("static") and not t.endswith(("&", "*")) and "reference_wrapper" not in t and "_ptr<" not in t,
+                  "every-log-statement-owns-its-text:LogStream::%s" % x["name"], "storage_class + declared type", "oomd/Log.h:%d" % x.get("line", 0),
+                  "the statement's text buffer is held by value (%s)" % t,
+                  "LogStream::%s is declared %s%s: the text of a log statement lives in a buffer other statements share - a statement whose operand "
+                  "logs has its text wiped by the inner one, and the inner line reaches the sink twice" % (x["name"], "static " if x.get("static") else "", t))
+    n = 0
+    for f in P.fns.values():
+        if not f.file.startswith("oomd/Log."):
+            continue
+        for d in f.all("decl"):
+            for v in f.nodes[d].get("vars", []):
+                if (v.get("static") or v.get("tls") or v.get("storage") in ("static", "thread_local")) and re.search(r"stream|string", v.get("type") or ""):
+                    n += 1
+                    ctx.use(f)
+                    ctx.violation("every-log-statement-owns-its-text:%s:%s" % (short(f), v["name"]), "storage_class (static / thread_local local in the logger)", f.loc(d),
+                                  "%s keeps a %s %s across calls: log text assembled in it is shared between the statements of a thread" % (f.pq, "static/thread_local", v.get("type")))
+    ctx.ok("every-log-statement-owns-its-text:no-shared-buffer", "storage_class (static / thread_local local in the logger)", "-", "%d static stream / string locals in the logger" % n)
+
+
 def logger_mode_is_fixed_at_construction(ctx):
     """'Lines of one thread are written in the order that thread produced them': a Log object is either inline or queued for its whole life.
     The mode flag (and the kmsg descriptor) is written by the constructor only - flipping a queued logger to inline later, in the
@@ -195,6 +230,7 @@ def run(ctx):
     # locals / parameters the rules below refer to by name (a rename makes the analysis 'broken', never a violation)
     P, cg = ctx.prog, ctx.cg
     nothing_logs_before_log_init(ctx)
+    every_log_statement_owns_its_text(ctx)
     logger_mode_is_fixed_at_construction(ctx)
     logger_is_built_on_an_open_kmsg_descriptor(ctx)
     silencing_is_bracketed(ctx)
